@@ -42,6 +42,10 @@ impl Prop for C01 {
         source: Cases::Generated(Box::new(|| tree(GenCfg::wild()).prop_map(|spec| TreeCase { spec }).boxed()), 120_000, 3_000_000),
       },
       Leg {
+        name: "larger wild trees (depth<=4, <=6 children, <=30 tokens)",
+        source: Cases::Generated(Box::new(|| tree(GenCfg::wild_large()).prop_map(|spec| TreeCase { spec }).boxed()), 30_000, 500_000),
+      },
+      Leg {
         name: "ascii trees",
         source: Cases::Generated(
           Box::new(|| tree(GenCfg::positional()).prop_map(|spec| TreeCase { spec }).boxed()),
